@@ -131,6 +131,19 @@ def gen(rng, tier):
     for _ in range(nr):
         fa, fb = rng.choice([("/r", "/r"), ("/r", "/r/"), ("/r/a", "/r"), ("/r", "/r/a"), ("/", "/r")])
         yield {"kind": "pair", "fsa": fa, "fsb": fb, "a": rand_str(rng, 0, 10), "b": rand_str(rng, 0, 10)}
+    # the same absolute path reached from different fs roots (equality / hashing must agree)
+    for _ in range(nr // 2):
+        parts = [rng.choice(["a", "b", "ab", "a.b", "*", "b?"]) for _ in range(rng.randint(1, 5))]
+        i, j = rng.randint(0, len(parts)), rng.randint(0, len(parts))
+        def mk(k):
+            fs = "/r" + "".join("/" + x for x in parts[:k]) + rng.choice(["", "/"])
+            rel = "/".join(parts[k:])
+            return fs, rng.choice(["", "/"]) + rel + rng.choice(["", "/"])
+        fa, a = mk(i)
+        fb, b = mk(j)
+        if rng.random() < 0.25:
+            b = b + rng.choice(["a", "/b"])
+        yield {"kind": "pair", "fsa": fa, "fsb": fb, "a": a, "b": b}
     for _ in range(nt):
         dirs, files = rand_tree(rng)
         yield {"kind": "resolve", "dirs": dirs, "files": files, "fsAt": "r/p/fs",
